@@ -12,6 +12,7 @@ Energy spec (tree), see harness/props/c11.py for the generators:
            {"k":"varcov","n":n,"cplx":bool,"full":bool,"kr":"a","ki":"b"} {"k":"sgamma","r":[..],"cplx":bool}
   wrappers {"k":"scale","c":c,"e":spec} {"k":"sum","es":[spec,..]} {"k":"chain","e":spec,"f":{key|"":fspec}}
            {"k":"lin","e":leafspec,"A":[[..]]} {"k":"ham","e":spec,"ic":bool}
+           {"k":"vmodel","e":varcovleaf,"A":[[..]],"B":[[..]]}   (varcov @ (xi -> {a: A xi, b: exp(B xi)}), single input domain)
   fspec    {"f":"id"} {"f":"scal","c":c} {"f":"diag","v":[..]} {"f":"exp"} {"f":"sigmoid"} {"f":"sqr"} {"f":"expscal","c":c}
 """
 import numpy as np
@@ -181,6 +182,17 @@ def build(e, dom):
         if e["e"].get("key") is not None:
             op = op.ducktape(e["e"]["key"])
         return op
+    if k == "vmodel":
+        # VariableCovarianceGaussianEnergy @ model, model: single domain -> {a: A xi, b: exp(B xi)}
+        from nifty.cl.operators.simple_linear_operators import DomainChangerAndReshaper
+        vc = build_leaf(e["e"], dom)
+        dd = I.DomainTuple.make(dom)
+        flat = I.DomainTuple.make(I.UnstructuredDomain(dd.size))
+        to_flat, back = DomainChangerAndReshaper(dd, flat), DomainChangerAndReshaper(flat, dd)
+        Ma = back @ I.MatrixProductOperator(flat, np.array(e["A"], dtype=np.float64)) @ to_flat
+        Mb = (back @ I.MatrixProductOperator(flat, np.array(e["B"], dtype=np.float64)) @ to_flat).ptw("exp")
+        model = I.FieldAdapter(dd, e["e"].get("kr", "a")).adjoint @ Ma + I.FieldAdapter(dd, e["e"].get("ki", "b")).adjoint @ Mb
+        return vc @ model
     if k == "ham":
         inner = build(e["e"], dom)
         ic = I.AbsDeltaEnergyController(0.5, iteration_limit=3) if e.get("ic") else None
